@@ -33,7 +33,7 @@ impl Monitor for C14 {
     }
     fn plan(&self, tier: Tier) -> Vec<String> {
         let mut v: Vec<String> = (0..24).map(|i| format!("cat:{i}")).collect();
-        for i in 0..tier.pick(600, 40_000) {
+        for i in 0..tier.pick(1500, 40_000) {
             v.push(format!("rnd:{i}"));
         }
         v
